@@ -214,5 +214,29 @@ pub fn c16(a: &Args) {
         let p = guarded(|| small.enumerate(&mut vec![], 5));
         if !matches!(&p, Ok(Some(v)) if v.len() == 2) { out.fail("cross-model-paging", "VP9_d4.nnf + small_ex_c2d.nnf", "after 5 pages of vp9: small_ex.enumerate([],5)", &format!("{:?}", p), "the remaining 2 configurations"); }
     }
+    // many enumerations for other assumption lists between two pages of one list: the second page must be what a fresh
+    // instance that only saw the requests for that list answers (70 and 1 100 other lists: bounded stores / caches)
+    for others in [70usize, 1100] {
+        let lines = vec!["o 1 0".to_string(), "t 2 0".to_string(), "1 2 1 0".to_string(), "1 2 -1 2 0".to_string()];
+        let text = lines.join("\n");
+        let n = 40u32;
+        let (l1, l2) = (lines.clone(), lines.clone());
+        let (Ok(mut long), Ok(mut fresh)) = (guarded(move || ddnnife::parser::distribute_building(l1, Some(n), None)), guarded(move || ddnnife::parser::distribute_building(l2, Some(n), None))) else { continue };
+        let a0 = vec![3i32];
+        let _ = guarded(|| long.enumerate(&mut a0.clone(), 5));
+        let _ = guarded(|| fresh.enumerate(&mut a0.clone(), 5));
+        let mut done = 0usize;
+        'outer: for v in 4..=n as i32 { for w in (v + 1)..=n as i32 { for (sv, sw) in [(1, 1), (1, -1), (-1, 1)] {
+            if done >= others { break 'outer; }
+            let _ = guarded(|| long.enumerate(&mut vec![sv * v, sw * w], 1));
+            let _ = guarded(|| long.execute_query(&[sv * v]));
+            done += 1;
+        } } }
+        out.eval(Some(format!("{text}|{others} other lists")));
+        out.count("histories_with_many_assumption_lists", 1);
+        let got = guarded(|| long.enumerate(&mut a0.clone(), 5)).ok().flatten();
+        let want = guarded(|| fresh.enumerate(&mut a0.clone(), 5)).ok().flatten();
+        if got != want { out.fail("history-dependence", &text, &format!("enum a [3] l 5, one page for each of {done} other assumption lists, enum a [3] l 5 (-t {n})"), &format!("{:?}", got.map(|p| p.iter().map(|c| c[..4].to_vec()).collect::<Vec<_>>())), &format!("{:?}", want.map(|p| p.iter().map(|c| c[..4].to_vec()).collect::<Vec<_>>()))); }
+    }
     out.finish("random histories (10..35 requests) over 15 request kinds (count by each strategy, sat, per-feature table, core, seeded sampling, enumeration, atomic sets, atomic-cross, t-wise, mermaid marking, save, per-variable count) on one long-lived instance, each non-paging answer compared with a fresh instance and with a clone taken just before; enumeration judged per assumption set; all ordered pairs of request kinds; pairs of different models enumerated alternately in one process; distinct by (file, history)");
 }
